@@ -39,7 +39,7 @@ CHECKS = {
             "Random event-built relations (every reduction rule) and initial sets (boolean / MT-int distance / EV+ distance); every offered algorithm, forward and backward, repeated calls in the same forests; results equal the BFS reachable set / shortest distances pointwise and different algorithms give the identical edge.",
             "explicit graph + BFS in the harness; MT-int 'unreachable' = any negative value; SATUR with non-identity relation forests is a recorded known finding and excluded by construction"),
     "C09": ("5/C09", "PBT against the explicit neighbour / sum-of-products definition",
-            "Pre/post images of boolean and distance-valued sets (fully- and quasi-reduced, also in place) under relations of every reduction rule, and VM/MV products of int/real vectors and matrices, compared pointwise with the explicit definition.",
+            "Pre/post images of boolean and distance-valued sets (fully- and quasi-reduced, also in place) under relations of every reduction rule, and VM/MV products of int/real vectors and matrices, compared pointwise with the explicit definition; results must also be canonical (== every other edge of the forest with the same table, e.g. the image under the empty relation == the constant) and obey the result forest's reduction rule (structural audit).",
             "explicit definition in the harness; tolerance for reals scaled by the summed magnitudes"),
     "C13": ("5/C13", "stateful PBT: held edges re-evaluated under the new variable order + structural audit",
             "MT set/relation and EV+ set forests, all 8 heuristics and both swap methods, uniformly random target permutations, several held edges and warm compute tables; after reorderVariables() every held edge must evaluate to its table with minterm positions taken from the forest's new order, the forest must pass the structural audit, and other forests over the domain must be untouched.",
@@ -48,7 +48,7 @@ CHECKS = {
             "0-8 roots incl. shared sub-graphs, terminal and repeated roots written and read back into the same forest, another forest of the same kind with other policies, or a forest created from the file; same number/order of roots, equal tables, identical edges in the writing forest, multi-terminal real values equal to what the library held when writing to 1e-9 (the format prints 11 digits; 7-9 digit values are generated), audit + exact reference recount of the receiving forest.",
             "in-memory streams; EV* reals compared to the 6 printed digits; relation files from non-identity-reduced writers read via mdd_reader(domain) are a recorded known finding"),
     "C15": ("5/C15", "PBT against the sorted member list",
-            "Random boolean sets incl. empty and full, over variables of size 1..20, converted to index sets: members in lexicographic order map to 0..n-1, others to +infinity; getElement(i) returns member i or false outside 0..n-1; stored cardinalities equal the true member counts in every node.",
+            "Random boolean sets incl. empty and full, over variables of size 1..20, converted to index sets: members in lexicographic order map to 0..n-1, others to +infinity; getElement(i) returns member i or false outside 0..n-1; stored cardinalities equal the true member counts in every node. Plus product sets too large to enumerate (up to ~10^17 members over up to 26 variables) whose ranks, i-th members and cardinalities have closed forms, checked at sampled members / indexes.",
             "lexicographic order by level"),
     "C16": ("5/C16", "fault-injecting stateful PBT: misuse calls spliced into valid histories, error-contract oracle + state audit",
             "Valid histories over two domains and several forest kinds with misuse calls spliced in (cross-domain / set-relation / labeling / range mismatches, compute() with foreign result or operand edges, out-of-range values, zero divisors met at the last point of the recursion, bad variables, foreign minterms, getElement on non-index edges, exhausted iterators, edges of destroyed forests, operands / result in forests with different variable orders, initialize() on a running library under every compute-table style, division errors in EV* forests); each must raise MEDDLY::error with a documented code and leave the edge passed as the result (fresh, an operand, or in use) exactly as it was; afterwards held edges, structural audit, no-undercount recount and further valid operations are checked.",
